@@ -411,10 +411,18 @@ func protoAlphabet(role string, which string) []*protoEvent {
 	}
 	// other administrative messages
 	add(inEv("Heartbeat", "0", true, false, "", true, func(w *world) []byte { return w.msg("0") }))
+	// a sequence number written with leading zeros (legal), large enough for octal and decimal readings to differ
+	add(inEv("Heartbeat(seq-zero-padded)", "0", true, false, "", true, func(w *world) []byte {
+		w.nextIn += 9
+		m := w.msg("0")
+		return withField(m, "34", "00"+strconv.Itoa(seqOf(m)))
+	}))
 	add(inEv("TestRequest", "1", true, false, "", true, func(w *world) []byte { return w.msg("1", "112=T1") }))
 	add(inEv("ResendRequest(1,0)", "2", true, false, "", true, func(w *world) []byte { return w.msg("2", "7=1", "16=0") }))
 	add(inEv("Logout", "5", true, false, "", true, func(w *world) []byte { return w.msg("5") }))
 	add(inEv("App(D)", "D", true, false, "", true, func(w *world) []byte { return w.msg("D", "11=x") }))
+	// message types are case-sensitive: 'a' (QuoteStatusRequest) is an application message, not a Logon ('A')
+	add(inEv("App(a)", "a", true, false, "", true, func(w *world) []byte { return w.msg("a", "649=q", "98=0", "108=30") }))
 	add(inEv("Unknown(ZZ)", "ZZ", true, false, "", true, func(w *world) []byte { return w.msg("ZZ") }))
 	switch which {
 	case "C07":
